@@ -1346,6 +1346,69 @@ func worker(from, to int, tier, out, scratch string) {
 	}
 }
 
+// witnessS11 is the deterministic witness of known finding S11, run in a process of its own with an
+// in-memory sqlite vault of its own (it wedges the store): 4 plans, List with a cancellable context, exactly
+// one element taken, context cancelled, no more reads; then Exists with a live context, bounded at 2 s.
+// finding_present = that Exists does not return.
+func witnessS11() map[string]any {
+	out := map[string]any{"witness": "S11"}
+	ctx := context.Background()
+	set := hplug.NewSet()
+	v, err := sqlite.New(ctx, "", set.Reg, sqlite.WithInMemory())
+	if err != nil {
+		out["what"] = "cannot open the vault: " + err.Error()
+		return out
+	}
+	r := core.NewRand(7)
+	uu := []uuid.UUID{uuid.Nil}
+	for i := 1; i <= 5; i++ {
+		uu = append(uu, plangen.V7(r))
+	}
+	base := int64(1704067200)
+	for i := 1; i <= 4; i++ {
+		p := build(r, uu, planSpec{Ix: i, Group: 5, Name: 1, Descr: 2, Submit: base + int64(10*i), Status: 100, Start: base + 100, End: zeroSubmit}, false)
+		if err := v.Create(ctx, p); err != nil {
+			out["what"] = "cannot create plan: " + err.Error()
+			return out
+		}
+	}
+	lctx, cancel := context.WithCancel(ctx)
+	ch, err := v.List(lctx, 0)
+	if err != nil {
+		cancel()
+		out["what"] = "List returned an error: " + err.Error()
+		return out
+	}
+	got := 0
+	select {
+	case s, ok := <-ch:
+		if ok && s.Err == nil {
+			got = 1
+		}
+	case <-time.After(2 * time.Second):
+	}
+	time.Sleep(100 * time.Millisecond) // let the producer put the second row into the slot
+	cancel()
+	// the consumer stops reading here
+	time.Sleep(200 * time.Millisecond)
+	done := make(chan string, 1)
+	go func() {
+		ectx, ecancel := context.WithTimeout(context.Background(), 30*time.Second)
+		defer ecancel()
+		ok, err := v.Exists(ectx, uu[1])
+		done <- fmt.Sprintf("Exists returned (%v, %v)", ok, err)
+	}()
+	select {
+	case d := <-done:
+		out["finding_present"] = false
+		out["what"] = fmt.Sprintf("4 plans, List(ctx, 0), %d element taken, ctx cancelled, reading stopped; afterwards %s within 2 s", got, d)
+	case <-time.After(2 * time.Second):
+		out["finding_present"] = true
+		out["what"] = fmt.Sprintf("4 plans, List(ctx, 0), %d element taken, ctx cancelled, reading stopped; a following Exists with a live context did not return within 2 s (the producer is blocked in its unconditional error send, the stream is not closed, the only connection is not returned)", got)
+	}
+	return out
+}
+
 func main() {
 	n := flag.Int("n", 90, "number of histories")
 	out := flag.String("out", "-", "output file (JSONL)")
@@ -1354,8 +1417,14 @@ func main() {
 	to := flag.Int("to", 0, "")
 	tier := flag.String("tier", os.Getenv("VERIF_TIER"), "")
 	procs := flag.Int("procs", 6, "worker processes")
+	isWitness := flag.Bool("witness-s11", false, "internal: run the S11 witness in this process and print its observation")
 	scratch := flag.String("scratch", "", "directory for file-backed stores")
 	flag.Parse()
+	if *isWitness {
+		b, _ := json.Marshal(witnessS11())
+		os.Stdout.Write(append(b, '\n'))
+		os.Exit(0) // leaves the blocked producer behind
+	}
 	if *scratch == "" {
 		*scratch = filepath.Dir(*out)
 		if *out == "-" {
@@ -1413,6 +1482,25 @@ func main() {
 		defer f.Close()
 	}
 	bw := bufio.NewWriterSize(f, 1<<20)
+	// the S11 witness, in a child of its own
+	{
+		wctx, wcancel := context.WithTimeout(context.Background(), 30*time.Second)
+		cmd := exec.CommandContext(wctx, os.Args[0], "-witness-s11")
+		cmd.Env = os.Environ()
+		ob, err := cmd.Output()
+		wcancel()
+		obs := map[string]any{}
+		kind := "witness"
+		if err != nil || json.Unmarshal(ob, &obs) != nil || obs["finding_present"] == nil {
+			kind = "witness-absent"
+			if obs["what"] == nil {
+				obs = map[string]any{"witness": "S11", "what": fmt.Sprintf("the witness process gave no observation: %v", err)}
+			}
+		}
+		b, _ := json.Marshal(core.Case{ID: "witness-S11", Kind: kind, Observed: obs,
+			Input: map[string]any{"steps": "sqlite in-memory vault; Create x4; List(ctx,0); receive 1; cancel ctx; stop reading; Exists(live ctx) bounded 2 s"}})
+		bw.Write(append(b, '\n'))
+	}
 	for _, rs := range results {
 		for _, l := range rs {
 			bw.WriteString(l)
